@@ -4,7 +4,7 @@ from checklib import Scenario
 
 RULE = ("files generated from the conventional grammar (Grammar.v / DESIGN.md 5.1) as ASTs aimed at the case splits of the "
         "proof (each delimiter class; key ending at blank vs delimiter; value empty / plain / quoted; trailing comment; "
-        "continuation lines; sections first / re-opened / empty; comment lines with arbitrary text), rendered and given their "
+        "continuation lines; sections first / re-opened / empty; comment lines with arbitrary text; one file in a hundred with a field stretched beyond 8192 bytes), rendered and given their "
         "meaning by the Coq definitions; 7 delimiter sets x 3 comment sets; compared: the implementation's full dump and every "
         "listing/getter against the EXPECTED configuration (spec) and against the model parser; non-trivial = has a key line; "
         "distinct by rendered bytes")
@@ -14,7 +14,18 @@ def gen(rng, tier):
     asts = []
     for _ in range(n):
         dl = rng.choice(grammar.DELIMS); cm = rng.choice(grammar.COMMENTS)
-        asts.append((dl, cm, grammar.gen_file(rng, dl, cm, maxlines=12)))
+        ls = grammar.gen_file(rng, dl, cm, maxlines=12)
+        if rng.random() < 0.01:
+            # the grammar has no length limit: stretch one value, continuation text, key or comment beyond the stdio buffer size
+            idx = [i for i, l in enumerate(ls) if l[0] in ("K", "T", "C")]
+            if idx:
+                i = rng.choice(idx); l = list(ls[i]); pad = b"w" * rng.choice([8185, 8192, 8200, 20000])
+                if l[0] == "T": l[2] = l[2] + pad
+                elif l[0] == "C": l[3] = l[3] + pad
+                elif l[6] == "P" and l[7]: l[7] = l[7] + pad
+                else: l[2] = l[2] + pad
+                ls[i] = tuple(l)
+        asts.append((dl, cm, ls))
     exp = gramlib.expected_of(asts)
     out = []
     for (dl, cm, ls), e in zip(asts, exp):
